@@ -27,9 +27,12 @@ theorem sendFromModule_ov (s : St) (R : List Rollapp) (Q : List QEntry) (H : Lis
   by_cases h1 : q.tokens < amt
   · rw [if_pos h1, if_pos h1]; rfl
   · rw [if_neg h1, if_neg h1]
-    by_cases h2 : s.modBal < amt
-    · rw [if_pos h2, if_pos (show (ov s R Q H).modBal < amt from h2)]; rfl
-    · rw [if_neg h2, if_neg (show ¬ (ov s R Q H).modBal < amt from h2)]; rfl
+    by_cases hb : blockedAddr to = true
+    · rw [if_pos hb, if_pos hb]; rfl
+    · rw [if_neg hb, if_neg hb]
+      by_cases h2 : s.modBal < amt
+      · rw [if_pos h2, if_pos (show (ov s R Q H).modBal < amt from h2)]; rfl
+      · rw [if_neg h2, if_neg (show ¬ (ov s R Q H).modBal < amt from h2)]; rfl
 
 theorem burn_ov (s : St) (R : List Rollapp) (Q : List QEntry) (H : List (Addr × Nat)) (q : Seq) (amt : Nat) :
     burn (ov s R Q H) q amt = ovM R Q H (burn s q amt) := by
